@@ -521,7 +521,10 @@ def align_variable_names_with_convention(
     renamings = {
         node: list(substitutes)[0]
         for node, substitutes in renamings.items()
-        if len(substitutes) == 1 and blacklisted_names.isdisjoint(substitutes)
+        if len(substitutes) == 1
+        and blacklisted_names.isdisjoint(substitutes)
+        # Some of the references to a name that shadows a builtin may be to the builtin
+        and getattr(node, "id", getattr(node, "name", None)) not in constants.BUILTIN_FUNCTIONS
     }
     substitute_node_renamings = collections.defaultdict(set)
     for node, substitute in renamings.items():
